@@ -109,6 +109,29 @@ fn main() {
             }
             println!("OK property={} tier={} seed={}", p.id, tier.name(), seed);
         }
+        "fuzz-replay" => {
+            // pcv fuzz-replay <target> <artifact> : run one libFuzzer input through the target's oracles
+            let target = args.get(2).unwrap_or_else(|| usage()).clone();
+            let file = args.get(3).unwrap_or_else(|| usage());
+            let data = std::fs::read(file).expect("cannot read artifact");
+            let mut l = Local::new();
+            match runner::no_panic(|| pcv::fuzzsupport::run_target(&target, &data, &mut l)) {
+                Ok(Ok(())) => println!("fuzz input passes"),
+                Ok(Err(f)) => {
+                    println!("FUZZ-FAIL {}", f.msg);
+                    println!("CASE {}", f.case);
+                    if let Some(s) = f.signature {
+                        println!("SIGNATURE {}", s);
+                    }
+                    std::process::exit(1);
+                }
+                Err(p) => {
+                    println!("FUZZ-FAIL panic: {}", p);
+                    println!("CASE {}", serde_json::json!({"check": "fuzz", "target": target, "input": runner::hex(&data)}));
+                    std::process::exit(1);
+                }
+            }
+        }
         "replay" => {
             let id = args.get(2).unwrap_or_else(|| usage()).clone();
             let file = PathBuf::from(args.get(3).unwrap_or_else(|| usage()));
